@@ -573,7 +573,8 @@ def run_spec_mutant(variant):
 
 
 # --------------------------------------------------------------------------- binding A: real fits
-KINDS = ["separated", "overlapping", "duplicated", "collinear", "identical", "zerovar", "single", "lattice", "boundary", "separated_wide"]
+KINDS = ["separated", "overlapping", "duplicated", "collinear", "identical", "zerovar", "single", "lattice", "boundary", "separated_wide",
+         "two_level"]
 WKINDS = ["unit", "uniform", "exponential", "lognormal6", "nearzero", "exactzero", "integer", "dominant", "zeroblob"]
 
 
@@ -618,6 +619,13 @@ def gen_case(np, seed, i, tier):
         X = 0.5 + 0.1 * rng.randn(n, d)
     elif kind == "lattice":
         X = rng.randint(0, 5, size=(n, d)) / 4.0
+    elif kind == "two_level":   # two groups far apart, each of two or three blobs (scaled by 50 below: 40 / 5-8 / 0.3)
+        per = 2 + rng.randint(2)
+        gaps = rng.uniform(0.09, 0.17, size=2)
+        grp, blob = rng.randint(2, size=n), rng.randint(per, size=n)
+        X = np.full((n, d), 0.02) + 0.006 * rng.randn(n, d)
+        X[:, 0] += 0.8 * grp
+        X[:, -1] += gaps[grp] * blob
     else:  # boundary: mass piled up on the faces of the cube
         X = 0.5 + 0.6 * rng.randn(n, d)
     X = np.clip(X, 0.0, 1.0)
@@ -625,6 +633,9 @@ def gen_case(np, seed, i, tier):
     if kind == "separated_wide":      # same blobs in the cube [-5, 5]^d
         scaled = (10.0, -5.0)
         X = X * 10.0 - 5.0
+    elif kind == "two_level":
+        scaled = (50.0, 0.0)
+        X = X * 50.0
     elif rng.rand() < 0.12:
         scaled = [(1e3, 0.0), (1e-3, 0.0), (1.0, 100.0), (10.0, -5.0)][rng.randint(4)]
         X = X * scaled[0] + scaled[1]
@@ -913,11 +924,46 @@ def fixed_case(np, j):
     if j == 6:
         X = np.clip(np.vstack([0.2 + 0.02 * rng.randn(50, 1), 0.8 + 0.02 * rng.randn(50, 1)]), 0, 1)
         return dict(base, kind="fixed:two-blobs-1d", X=X, normalize=True, w=np.exp(6 * rng.randn(100)), wkind="lognormal6")
-    X = np.repeat(rng.rand(4, 2), 15, axis=0)
-    return dict(base, kind="fixed:four-points-replicated", X=X, normalize=bool(j % 2), modifier=0.05)
+    if j in (7, 8):
+        X = np.repeat(rng.rand(4, 2), 15, axis=0)
+        return dict(base, kind="fixed:four-points-replicated", X=X, normalize=bool(j % 2), modifier=0.05)
+    if j < 9 + len(TWO_LEVEL):
+        # two-level hierarchy: two groups far apart, each made of two blobs; after the first split BOTH children qualify in the same
+        # pass (in several of these the lower-positioned one wins and the other one, which slides down one position, is split next)
+        t = TWO_LEVEL[j - 9]
+        return dict(base, kind="fixed:two-level-hierarchy", X=two_level_data(np, t), scaled=(1.0, 0.0), normalize=bool(t % 2),
+                    min_points=4 * (1 + t % 3), max_iterations=[1000, 12][t % 2])
+    # importance-weight-like skew: a compact group holds essentially all the weight, a few far points hold a share of 5e-4 in
+    # total; a two-component fit that seeds its second component there ends with a mixing weight far below 1e-3
+    t = j - 9 - len(TWO_LEVEL)
+    d = 1 + t % 3
+    n_main, n_far = 150, 2 * d + 2
+    X = np.vstack([rng.randn(n_main, d), [100.0, 300.0][(t // 3) % 2] + 0.5 * rng.randn(n_far, d)])
+    w = np.r_[np.ones(n_main), np.full(n_far, 5e-4 * n_main / n_far)]
+    return dict(base, kind="fixed:far-group-tiny-weight", X=X, w=w, wkind="fartiny", scaled=(1.0, 0.0), ctype=["full", "diag"][(t // 2) % 2])
 
 
-N_FIXED = 9
+TWO_LEVEL = [4, 18, 41, 0, 28, 30]
+
+
+def two_level_data(np, t):
+    rng = np.random.RandomState(1700 + t)
+    d = 1 + t % 3
+    gaps = [(5.0, 8.0), (8.0, 5.0)][(t // 3) % 2]
+    pts = []
+    for g in range(2):
+        for b in range(2):
+            c = np.zeros(d)
+            c[0] = 40.0 * g
+            c[-1] += gaps[g] * b
+            pts.append(c + 0.3 * rng.randn(30, d))
+    X = np.vstack(pts)
+    if (t // 6) % 2:
+        X = X[rng.permutation(len(X))]
+    return X
+
+
+N_FIXED = 9 + len(TWO_LEVEL) + 6
 
 
 def _real_case(args):
